@@ -33,7 +33,8 @@ def check(tier, seed, replay=None):
                        "slices deleted, garbage inserted, truncation + garbage) and unstructured random strings, decoded by UnmarshalBebop and DecodeBebop of the type; "
                        "the extracted model classifies each input first (ok / err / panic / excess); inputs it classifies `excess` (a count out of proportion to the input reaches "
                        "make() or a loop before any check) are not executed in the main batch, a fixed handful is confirmed in a memory-capped child; "
-                       "required on the rest: returns normally, no panic, allocation <= 16 KiB x input + 2 MiB; distinct = distinct (type, bytes)")
+                       "required on the rest: returns normally, no panic, allocation <= 16 KiB x input + 2 MiB; plus counts of 65537 .. 2^20 in front of 0 / 5 / 70000 zero bytes "
+                       "(out of proportion but affordable): the decoders must return - no hang (20 s watchdog per operation), no panic; distinct = distinct (type, bytes)")
     run.cov["trusted_base"] = wire.WIRE_TRUSTED
     broken = None
     try:
@@ -131,6 +132,38 @@ def check(tier, seed, replay=None):
             run.violation({"what": what, "op": ops_go[sample[0]][:600], "impl": res[0][:300], "model": ml[sample[0]]})
         else:
             run.known_hits[key][1] = len(exc_idx)
+    # counts that are out of proportion but affordable (<= 2^20 elements): the allocation is the known finding, but the decoder must still RETURN - a count
+    # beyond the data must not make it spin or panic.  Struct shapes whose first field is a string / array / map: the 4-byte count leads the encoding.
+    mod_ops, mod_meta = [], []
+    for d, tags in shapes:
+        if tags[0] != "struct" or tags[1] not in ("plain", "arr", "mapS", "mapU", "arr2", "maparr"):
+            continue
+        t0 = d.fields[0][1]
+        if tags[1] == "plain" and t0 != ("p", "string"):
+            continue
+        leaf = t0
+        while leaf[0] in "am":
+            leaf = leaf[1] if leaf[0] == "a" else leaf[2]
+        if not (leaf[0] == "p" and leaf[1] in ("string", "byte", "int32", "guid", "bool") or leaf[0] == "r" and leaf[1].name in ("SLeaf", "MLeaf", "SEmpty")):
+            continue
+        for cnt in (65537, 1 << 17, 1 << 20):
+            for dl in (0, 5, 70000):
+                body = (cnt.to_bytes(4, "little") + bytes(dl)).hex()        # zero data: no further hostile count inside
+                mod_ops.append("DEC %s 1 %s" % (d.name, body))
+                mod_meta.append((d, cnt, dl))
+                for sch in ("-", "4096,1,70000,3"):
+                    mod_ops.append("SDEC %s %s %s" % (d.name, sch, body))
+                    mod_meta.append((d, cnt, dl))
+    res = wirerun.run_go(b, mod_ops, measure=True, vmem_kb=4000000, timeout=900)
+    for (d, cnt, dl), op, g in zip(mod_meta, mod_ops, res):
+        n += 1
+        run.nontrivial(op[:200])
+        if classify(g) not in ("ok", "err", "crash"):          # a fatal out-of-memory is the allocation finding; a hang or a panic is not
+            found = True
+            if len(run.violations) < 4:
+                run.violation({"what": "a count of %d followed by %d bytes: %s does not return normally: %s" % (cnt, dl, op.split()[0], g[:200]), "type": d.name,
+                               "schema_def": s.def_bop(d) if not d.inline else d.name, "op": op[:300]})
+    run.notes["moderate_count_cases"] = len(mod_ops)
     run.notes["outcomes"] = tally
     run.count("evaluations", n)
     if broken:
